@@ -51,6 +51,7 @@ def check(chk, fx):
     cexrules.buf(chk, fx)             # the three buffer classes: begin / end / get_view mean the same slice
     from .. import primrules
     primrules.prims(chk, fx, "BUFIT")
+    primrules.prims(chk, fx, "GAPI2")         # custom_term / typed_term constructors hand on what they were given
     from .. import termrules
     termrules.termapi(chk, fx)
     termrules.defarg(chk, fx)
